@@ -3,7 +3,7 @@ import json
 import os
 from collections import deque, defaultdict
 from hqrules.core import FailClosed, callee_of, callee_decl, op_local, op_place, place_fields, norm
-from hqrules.templates import (effect_blocks, must_pass, state_writes, variants_at, call_sites, construct_sites, Effect,
+from hqrules.templates import (diverging_blocks, bool_uses, effect_blocks, must_pass, state_writes, variants_at, call_sites, construct_sites, Effect,
                                check_arm_effect, pick_scrutinee, loop_headers_containing, owner_fn, scrutinees,
                                field_read_sites, local_field_sources, diverging_blocks, guard_edges, dominated_by_edges,
                                bodies_with_effect)
@@ -428,6 +428,39 @@ def run(ctx):
         ctx.ob('R09.12', f'{p_.split("::")[-1]}|custom workers do not key a panicking registry lookup', not bad,
                f'{p_.split("::")[-1]}: a key derived from `custom_workers` reaches {bad[0][1] if bad else "no panicking lookup"} (a new-worker query with a waiting multi-node task and free real workers that cannot host it panics the server on every autoalloc tick)', b_.loc(bad[0][0]) if bad else b_.loc())
     ctx.floor('R09.12', nfun, 2, 'scheduler functions taking custom_workers')
+
+    # ---- R09.13 a channel whose other end lives in another task may be closed: its send result must not be asserted
+    ctx.rule('R09.13', 'sends on a oneshot / mpsc channel whose receiver is owned by a different future (task stop requests, callbacks) tolerate a closed channel: in the worker and server runtime no send result is unwrapped or asserted (the launcher future drops its stop receiver when the process has ended, while the task is still registered until its output is flushed)')
+    SENDS = ('oneshot::Sender::send', 'mpsc::unbounded::UnboundedSender::send', 'mpsc::bounded::Sender::try_send')
+    UNW3 = ('Result::unwrap', 'Result::expect')
+    nsend = 0
+    for p_, b_ in prog.bodies.items():
+        if not p_.startswith((T + 'worker::', T + 'server::', 'hyperqueue::server::', 'hyperqueue::worker::', 'hyperqueue::stream::')) or is_test_util(p_) or '::tests::' in p_ or '::_::' in p_ or 'test_util' in p_:
+            continue
+        div_ = None
+        for bi_, t_, c_ in b_.calls():
+            if bi_ not in b_.reachable() or not (c_ or '').endswith(SENDS):
+                continue
+            if not (c_ or '').endswith('oneshot::Sender::send'):
+                continue      # mpsc senders to the own comm loop are inventoried by R09.3 / not judged here
+            nsend += 1
+            dl_ = b_.term[bi_]['d'][0]
+            bad = None
+            for x_, t2_, c2_ in b_.calls():
+                if x_ not in b_.reachable() or op_local(t2_['args'][0]) if t2_['args'] else None is None:
+                    pass
+                if x_ in b_.reachable() and t2_['args'] and op_local(t2_['args'][0]) is not None and dl_ in b_.derived_from(op_local(t2_['args'][0]), through_mutation=False):
+                    if (c2_ or '').endswith(UNW3):
+                        bad = (x_, 'unwrap/expect of the send result')
+                    if (c2_ or '').endswith(('Result::is_ok', 'Result::is_err')) and not t2_['d'][1]:
+                        if div_ is None:
+                            div_ = diverging_blocks(b_)
+                        for sb_, ts_, fs_ in bool_uses(b_, t2_['d'][0]):
+                            if (ts_ in div_) != (fs_ in div_):
+                                bad = (x_, 'assert on is_ok()/is_err() of the send result')
+            ctx.ob('R09.13', f'{owner_fn(prog, p_).split("::")[-1]}|oneshot send result not asserted', bad is None,
+                   f'{owner_fn(prog, p_).split("::")[-1]}: {bad[1] if bad else "the send result is handled"} (a cancel or time limit that arrives after the task process ended but before the launcher future finished - e.g. while streamed output is flushed - finds the receiver dropped and panics the worker)', b_.loc(bad[0]) if bad else b_.loc(bi_))
+    ctx.floor('R09.13', nsend, 1, 'oneshot sends in the tako worker / server runtime')
 
     # ---- R09.6 / R09.7
     ctx.rule('R09.6', 'no panicking task lookup inside a loop whose body may remove tasks from the core (ids collected before the loop can be gone when their turn comes)')
